@@ -25,7 +25,7 @@ import (
 
 func init() {
 	register(&Prop{ID: "C13", Run: c13Run,
-		Rule: "every case executes one operation through pipeline.New(WithData(doc)).Execute on a generated data document (<= 4 levels, key pool of 6 path-safe keys), along a route named by the case: directly (half of the cases), or through the copy made by CloneWith(ctx) of the operation alone / of the OpSpec / ActionSpec / named step holding it, or as the body of a forEach over one item, one or two levels deep (forEach clones its operations per item) - all predicates and the model comparison are the same on every route, and a fixed table runs every route x every configuration (set strategies x container / leaf / list-item / absent / root targets holding keys the payload lacks, template parseAs x trim, import modes, export formats x target kinds, patch ops, env include / exclude) on one document. set: payload maps (also present-but-empty ones, and scalars over a wider value range: texts with white space around them, line ends, letter-case twins, supplementary-plane characters, template look-alikes, typed int64 / uint64) x target paths (existing leaf / container / list / list item, absent below a container, absent below a leaf, fresh, empty = root) x strategy {unset, merge, replace, unknown} x nil payload; template: literal / {{ .key }} / failing / YAML-of-a-tree templates x parseAs {unset, none, yaml, unknown} x trim, and YAML texts whose reading depends on the WHITE SPACE AROUND them (before the first token: tab, spaces, line ends, NBSP, NEL, BOM; after the last: blank lines behind a block scalar with a chomping indicator, tab, NBSP, NEL, document end marker, comment; uniformly indented blocks; texts YAML rejects) x parseAs x trim - direct predicate: what is stored is the YAML parse (yaml.v3 applied by the harness; every scalar a text) of the rendered text with the white space trimmed off when trim is set, a text the parser rejects is an error; patch: RFC 6902 ops with pointers derived from the document's own paths, value / valueFrom / from; import: text / binary over random byte strings (incl. invalid UTF-8, empty; half of them led by a special beginning - UTF-8 / UTF-16 / UTF-32 byte order marks whole, doubled and cut, NUL, YAML document / directive / comment / tag / anchor markers, white space and line ends of every kind, quotes, braces, template delimiters, control and magic bytes - and a third ended by a special ending: with and without final line end, CR, NUL, BOM, backslash, padding characters), yaml / json / properties over encoded subtrees, missing file, unknown mode, empty path; roundtrip: export of a container (or the whole document) as yaml / json re-imported at a fresh path; export: every format (incl. unknown) x target kind (nil path, absent, leaf, list, container, via value and via ref); env: synthetic process environment (os.Clearenv + Setenv, restored afterwards) x include / exclude regex pools; lenient: strings without '{{', with unbalanced braces, failing and working templates; rerun (histories): ONE operation object decoded from pipeline YAML (export with path / file given as immediate value or as {ref: leaf}; set / patch / template / import / env with path, file and template fields partly written as templates over data leaves) is executed 2-4 times through one executor while edits between the executions remove the referenced leaf, turn it into a container / list / other scalar, point it elsewhere, change or remove the target, rewrite or unlink the imported files - every execution is judged on the data of that moment (export: documented rule with path and file resolved on the wire document, only the file named at that moment is touched, model exportOp / resolve; all kinds: same outcome, document and files as a fresh operation object decoded from the same YAML on an equal document). A case is non-trivial when the data document has at least two nodes and the operation's outcome is not an argument error (a history: at least two executions with different data); distinct = distinct canonical case JSON (hash).",
+		Rule: "every case executes one operation through pipeline.New(WithData(doc)).Execute on a generated data document (<= 4 levels, key pool of 6 path-safe keys), along a route named by the case: directly (half of the cases), or through the copy made by CloneWith(ctx) of the operation alone / of the OpSpec / ActionSpec / named step holding it, or as the body of a forEach over one item, one or two levels deep (forEach clones its operations per item) - all predicates and the model comparison are the same on every route, and a fixed table runs every route x every configuration (set strategies x container / leaf / list-item / absent / root targets holding keys the payload lacks, template parseAs x trim, import modes, export formats x target kinds, patch ops, env include / exclude) on one document. set: payload maps (also present-but-empty ones, and scalars over a wider value range: texts with white space around them, line ends, letter-case twins, supplementary-plane characters, template look-alikes, typed int64 / uint64) x target paths (existing leaf / container / list / list item, absent below a container, absent below a leaf, fresh, empty = root) x strategy {unset, merge, replace, unknown} x nil payload; template: literal / {{ .key }} / failing / YAML-of-a-tree templates x parseAs {unset, none, yaml, unknown} x trim, and YAML texts whose reading depends on the WHITE SPACE AROUND them (before the first token: tab, spaces, line ends, NBSP, NEL, BOM; after the last: blank lines behind a block scalar with a chomping indicator, tab, NBSP, NEL, document end marker, comment; uniformly indented blocks; texts YAML rejects) x parseAs x trim - direct predicate: what is stored is the YAML parse (yaml.v3 applied by the harness; every scalar a text) of the rendered text with the white space trimmed off when trim is set, a text the parser rejects is an error; patch: RFC 6902 ops with pointers derived from the document's own paths, value / valueFrom / from; import: text / binary over random byte strings (incl. invalid UTF-8, empty; half of them led by a special beginning - UTF-8 / UTF-16 / UTF-32 byte order marks whole, doubled and cut, NUL, YAML document / directive / comment / tag / anchor markers, white space and line ends of every kind, quotes, braces, template delimiters, control and magic bytes - and a third ended by a special ending: with and without final line end, CR, NUL, BOM, backslash, padding characters), yaml / json / properties over encoded subtrees, missing file, unknown mode, empty path; roundtrip: export of a container (or the whole document) as yaml / json re-imported at a fresh path; export: every format (incl. unknown) x target kind (nil path, absent, leaf, list, container, via value and via ref); env: synthetic process environment (os.Clearenv + Setenv, restored afterwards) x include / exclude regex pools; lenient: strings without '{{', with unbalanced braces, failing and working templates; rerun (histories): ONE operation object decoded from pipeline YAML (export with path / file given as immediate value or as {ref: leaf}; set / patch / template / import / env with path, file and template fields partly written as templates over data leaves) is executed 2-4 times through one executor while edits between the executions remove the referenced leaf, turn it into a container / list / other scalar, point it elsewhere, change or remove the target, rewrite or unlink the imported files - every execution is judged on the data of that moment (export: documented rule with path and file resolved on the wire document, only the file named at that moment is touched, model exportOp / resolve; all kinds: same outcome, document and files as a fresh operation object decoded from the same YAML on an equal document; import: a successful import stored what the file named at that moment holds at that moment - text, base64, or the mapping yaml.v3 / encoding/json read from it - where import histories also REWRITE THE FILE IN PLACE with content of the same length (one letter / digit exchanged) while the file keeps its modification time, as under cp -p / rsync -t / a coarse-timestamp file system). ROUND 8, lenient-history cases (c13_hist.go): ONE text reading a key path (plainly, inside a path-like text, through index into a list, through a function that wants a string, in an if) is rendered leniently by one executor over a history of 2-4 data documents in which that path holds a text / a number / a list of varying length / a container, is cut short by a scalar or a list, or is missing - so that the same text FAILS during execution on one document and RENDERS on a later one (and the other way round); every rendering is judged on the data of its moment: unchanged when Render fails, equal to Render when it succeeds; each evaluation renders a text nothing in the process rendered before (a comment action with a counter is appended), so a verdict depends on the history alone. A case is non-trivial when the data document has at least two nodes and the operation's outcome is not an argument error (a history: at least two executions with different data); distinct = distinct canonical case JSON (hash).",
 		Assumptions: []string{
 			"keys and path segments are path-safe: over [A-Za-z0-9_-] in the main streams, any text without a dot, an index group or a template delimiter in the look-alike stream of c13_look.go (index groups only where a list item is addressed); scalars are NaN-free and -0-free",
 			"text/template + sprig, yaml.v3, encoding/json, magiconair/properties, regexp and the OS are parameters of the model: the harness feeds the model the renderer's / parser's / decoder's / matcher's actual results for the same inputs",
@@ -629,9 +629,12 @@ func c13Run(c *Ctx) {
 		c13RunVia(c)
 	}
 	c13RunRerun(c)
+	c13RunHist(c) // one text rendered leniently over a history of data documents (c13_hist.go)
 	heapPatchOpGen(c, c.N(400)) // heap_share2.go
 	heapSetOpGen(c, c.N(300))   // heap_share2.go
 	c13RunLook(c)               // syntax look-alike keys, rare shapes, TMPDIR on another file system (c13_look.go)
+	c13tfRun(c)                 // the template functions of template_engine_funcs.go through real templates (c13_tplfuncs.go)
+	c13oxRun(c)                 // ExecOp, TemplateFileOp, Html2DomOp, ValOrRef / AnyVal decoding (c13_opsext.go)
 }
 
 // c13Heads / c13Tails: special beginnings and endings of imported files.
@@ -711,6 +714,8 @@ func c13NodeWire(n dom.Node, depth int, budget *int) W {
 func c13NodeCount(w W) int { return wireSize(w) }
 
 func c13Eval(c *Ctx, kind string, raw []byte) {
+	c13tfEval(c, kind, raw) // c13_tplfuncs.go: the kinds "tf-…" (template functions)
+	c13oxEval(c, kind, raw) // c13_opsext.go: the kinds "ox-…"
 	switch kind {
 	case "heap-patchop":
 		heapPatchOpEval(c, raw) // heap_share2.go
@@ -736,6 +741,8 @@ func c13Eval(c *Ctx, kind string, raw []byte) {
 		c13EvalLenient(c, raw)
 	case "rerun":
 		c13EvalRerun(c, raw)
+	case "lenient-history":
+		c13EvalLenientSeq(c, raw) // c13_hist.go
 	}
 }
 
